@@ -148,6 +148,46 @@ class Envoy(_Ident, Symbol):
     affiliated: List[Org] = field(default_factory=list)
 
 
+@dataclass(eq=False, repr=False)
+class Zone(_Ident, Symbol):
+    """part_of is transitive, has the inverse has_part and the super-property located_in."""
+
+    serial: int
+    part_of: List[Zone] = field(default_factory=list)
+    has_part: Set[Zone] = field(default_factory=set)
+    located_in: List[Zone] = field(default_factory=list)
+
+
+@dataclass(eq=False, repr=False)
+class Clerk(_Ident, Symbol):
+    """Has the sub-property field (reports_to: WorksFor) but no field for its super-property."""
+
+    serial: int
+    reports_to: Org = None
+
+
+@dataclass(eq=False, repr=False)
+class Officer(Clerk):
+    """A subclass that declares the super-property field itself; the sub-property field is inherited."""
+
+    enrolled: List[Org] = field(default_factory=list)
+
+
+@dataclass(eq=False, repr=False)
+class Donor(_Ident, Symbol):
+    """Has a field for the sub-property Funds only (no inverses in this chain)."""
+
+    serial: int
+    backs: List[Org] = field(default_factory=list)
+
+
+@dataclass(eq=False, repr=False)
+class Patron(Donor):
+    """Declares the field of the super-property RelatedTo itself; the sub-property field is inherited."""
+
+    linked: Set[Org] = field(default_factory=set)
+
+
 @dataclass
 class Member(PropertyDescriptor, HasInverseProperty):
     @classmethod
@@ -188,6 +228,25 @@ class PartnerOf(PropertyDescriptor, TransitiveProperty):
 
 
 @dataclass
+class LocatedIn(PropertyDescriptor):
+    ...
+
+
+@dataclass
+class HasPart(PropertyDescriptor, HasInverseProperty):
+    @classmethod
+    def get_inverse(cls) -> Type[PartOf]:
+        return PartOf
+
+
+@dataclass
+class PartOf(LocatedIn, TransitiveProperty, HasInverseProperty):
+    @classmethod
+    def get_inverse(cls) -> Type[HasPart]:
+        return HasPart
+
+
+@dataclass
 class RelatedTo(PropertyDescriptor):
     """Top of a chain without inverses: Funds < Supports < RelatedTo; Org has no field for Supports."""
 
@@ -214,8 +273,15 @@ Org.sub_org_of = SubOrgOf(Org, "sub_org_of")
 Org.partners = PartnerOf(Org, "partners")
 Org.funds = Funds(Org, "funds")
 Org.related = RelatedTo(Org, "related")
+Zone.part_of = PartOf(Zone, "part_of")
+Zone.has_part = HasPart(Zone, "has_part")
+Zone.located_in = LocatedIn(Zone, "located_in")
+Clerk.reports_to = WorksFor(Clerk, "reports_to")
+Officer.enrolled = MemberOf(Officer, "enrolled")
+Donor.backs = Funds(Donor, "backs")
+Patron.linked = RelatedTo(Patron, "linked")
 
-ONTOLOGY_CLASSES = {"Org": Org, "Human": Human, "Boss": Boss, "Envoy": Envoy, "Dean": Dean}
+ONTOLOGY_CLASSES = {"Org": Org, "Human": Human, "Boss": Boss, "Envoy": Envoy, "Dean": Dean, "Zone": Zone, "Clerk": Clerk, "Officer": Officer, "Donor": Donor, "Patron": Patron}
 
 # The same ontology as a plain table (the reference model reads only this).
 # property name -> {domain class, field, kind, range class, supers (property names), inverse, transitive}
@@ -226,6 +292,12 @@ ONTOLOGY = {
         "Boss": {"fields": ["head_of"], "role_taker": "human"},
         "Envoy": {"fields": ["chairs", "affiliated"], "role_taker": None},
         "Dean": {"fields": ["dean_of", "employed_by"], "role_taker": "human"},
+        "Zone": {"fields": ["part_of", "has_part", "located_in"], "role_taker": None},
+        "Clerk": {"fields": ["reports_to"], "role_taker": None},
+        # "fields" lists inherited fields too; a property's "cls" is the class that DECLARES the field
+        "Officer": {"fields": ["reports_to", "enrolled"], "role_taker": None, "bases": ["Clerk"]},
+        "Donor": {"fields": ["backs"], "role_taker": None},
+        "Patron": {"fields": ["backs", "linked"], "role_taker": None, "bases": ["Donor"]},
     },
     # property (one per managed field) -> class, field, kind, range, descriptor class, the descriptor classes it
     # specialises (strict supers), the descriptor class of its inverse, transitivity
@@ -242,9 +314,38 @@ ONTOLOGY = {
         "RelatedTo": {"cls": "Org", "field": "related", "kind": "set", "range": "Org", "descriptor": "RelatedTo", "supers": [], "inverse": None, "transitive": False},
         "SubOrgOf": {"cls": "Org", "field": "sub_org_of", "kind": "list", "range": "Org", "descriptor": "SubOrgOf", "supers": [], "inverse": None, "transitive": True},
         "PartnerOf": {"cls": "Org", "field": "partners", "kind": "set", "range": "Org", "descriptor": "PartnerOf", "supers": [], "inverse": None, "transitive": True},
+        "PartOf": {"cls": "Zone", "field": "part_of", "kind": "list", "range": "Zone", "descriptor": "PartOf", "supers": ["LocatedIn"], "inverse": "HasPart", "transitive": True},
+        "HasPart": {"cls": "Zone", "field": "has_part", "kind": "set", "range": "Zone", "descriptor": "HasPart", "supers": [], "inverse": "PartOf", "transitive": False},
+        "LocatedIn": {"cls": "Zone", "field": "located_in", "kind": "list", "range": "Zone", "descriptor": "LocatedIn", "supers": [], "inverse": None, "transitive": False},
+        "ReportsTo": {"cls": "Clerk", "field": "reports_to", "kind": "single", "range": "Org", "descriptor": "WorksFor", "supers": ["MemberOf"], "inverse": "Member", "transitive": False},
+        "Backs": {"cls": "Donor", "field": "backs", "kind": "list", "range": "Org", "descriptor": "Funds", "supers": ["Supports", "RelatedTo"], "inverse": None, "transitive": False},
+        "Linked": {"cls": "Patron", "field": "linked", "kind": "set", "range": "Org", "descriptor": "RelatedTo", "supers": [], "inverse": None, "transitive": False},
+        "Enrolled": {"cls": "Officer", "field": "enrolled", "kind": "list", "range": "Org", "descriptor": "MemberOf", "supers": [], "inverse": "Member", "transitive": False},
     },
 }
-FIELD_TO_PROPERTY = {(p["cls"], p["field"]): name for name, p in ONTOLOGY["properties"].items()}
+
+
+def ancestors_of(cls_name: str):
+    out = []
+    for b in ONTOLOGY["classes"][cls_name].get("bases", []):
+        out.append(b)
+        out += ancestors_of(b)
+    return out
+
+
+def is_a(cls_name: str, wanted: str) -> bool:
+    return cls_name == wanted or wanted in ancestors_of(cls_name)
+
+
+# (class, field) -> property, inherited fields included
+FIELD_TO_PROPERTY = {}
+for _cls, _info in ONTOLOGY["classes"].items():
+    for _f in _info["fields"]:
+        for _name, _p in ONTOLOGY["properties"].items():
+            if _p["field"] == _f and is_a(_cls, _p["cls"]):
+                FIELD_TO_PROPERTY[(_cls, _f)] = _name
+# class -> the properties its instances have
+CLASS_PROPERTIES = {c: [FIELD_TO_PROPERTY[(c, f)] for f in info["fields"]] for c, info in ONTOLOGY["classes"].items()}
 
 
 # ---------------------------------------------------------------- stub predicates (used by the lifetime workloads)
